@@ -14,4 +14,4 @@ for l in sys.stdin:
 print(f'  {c}/{n} reported by the target property')
 "
 echo "== refactorings (expected: no FALSE-ALARM)"
-/venv/bin/python tools/eval_refactors.py --kept | awk '{print "  "$0}' | cut -c1-400 | grep -v " silent " ; /venv/bin/python tools/eval_refactors.py --kept | awk '{c[$2]++} END {for (k in c) print "  "k": "c[k]}'
+out=$(mktemp); /venv/bin/python tools/eval_refactors.py --kept > "$out"; awk '{print "  "$0}' "$out" | cut -c1-400 | grep -v " silent " ; awk '{c[$2]++} END {for (k in c) print "  "k": "c[k]}' "$out"; rm -f "$out"
